@@ -19,6 +19,11 @@ def propagator(REG, qualname, rel, n_min=1, params="i32[m]", requires=(), entail
     ]
     if p3:
         ens.append(("P3.ground", f"implies(result != PROP_INCONSISTENCY and forall(k, 0, n, domains[k, MIN] == domains[k, MAX]), {R('domains[:, MIN]')})", ("C06",)))
+    for lbl, clause in (kw.pop("p5", None) or []):
+        # exactness by explicit witness tuples: `@R(W)` stands for the relation on the tuple W
+        import re as _re
+        c2 = _re.sub(r"@R\((\w+)\)", lambda m_: R(m_.group(1)), clause)
+        ens.append((lbl, c2, ("C14",)))
     ens.extend(extra_ensures)
     g = {"t": "int[n]", "u": "int[n]"}
     g.update(ghost or {})
